@@ -52,6 +52,14 @@ Theorem C04_integral_float_source_unrepresentable_modulus_refuted :
 Proof. exact mi_init_float_modulus_refuted. Qed.
 Print Assumptions C04_integral_float_source_unrepresentable_modulus_refuted.
 
+(* ---- convert: Caster<T, Element> (a static_cast) returns the stored integer whenever the target type holds it ---- *)
+Theorem C04_convert_native_exact : forall T e, wf T -> tmin T <= e <= tmax T -> conv_int T e = e.
+Proof. exact cast_id. Qed.
+Print Assumptions C04_convert_native_exact.
+Theorem C04_convert_floating_exact : forall prec e, 0 < prec -> Z.abs e < 2 ^ prec -> conv_flt prec e = e.
+Proof. exact rnd_exact. Qed.
+Print Assumptions C04_convert_floating_exact.
+
 (* ---- Modular<float|double, C> (modular-floating.inl) ---- *)
 Theorem C04_floating_every_source : forall prec p, 0 < prec -> 2 <= p < 2 ^ prec -> forall s a,
   mf_src_ok prec p s a -> exists r, mf_init prec p s a = Some r /\ residue p a r.
